@@ -262,7 +262,7 @@ def instant_minus_instant(i1, i2):
 
 def instant_plus_quantity(inst, q):
     validate_time(q)
-    delta = timedelta(seconds=q.mag)
+    delta = timedelta(seconds=float(q.mag))
     return Instant(inst.dt + delta)
 
 def instant_plus_int(inst, i):
@@ -271,7 +271,7 @@ def instant_plus_int(inst, i):
 
 def instant_minus_quantity(inst, q):
     validate_time(q)
-    delta = timedelta(seconds=q.mag)
+    delta = timedelta(seconds=float(q.mag))
     return Instant(inst.dt - delta)
 
 def instant_minus_int(inst, i):
